@@ -34,6 +34,10 @@ CHECKS = {
          "The refinement mapping from C / wrapper actions to World actions is stated in CApi.tla and checked by TLC on all argument combinations; every mapped pair of actions is executed side by side in one process and compared bitwise, with the seed observed through random models and the output directory through the files written.",
          "5 seeds incl. 2^31-1 and 2^32+5, null/non-null flag and directory; " + NOTE,
          "TLA+/TLC refinement mapping (CApi.tla) + side-by-side replay, bitwise"),
+ "C17": ("model_checking",
+         "Dat.tla states, for every option-line configuration, the header and which slot of the library's reply belongs under each column name (Prop) next to the printer's transcribed index arithmetic (Mech); TLC checks Mech = Prop (the code's deviations are explicit switches). The real gwb-dat is run on every configuration, its stdout is validated by TLC as a trace against Dat.tla (DatTrace.tla) and every cell is compared with the library's in-process reply.",
+         "216 configurations, 7 rows each, one kitchen-sink world per coordinate mode; " + NOTE,
+         "TLA+/TLC (Dat.tla Mech=Prop) + trace validation of the real tool's output (DatTrace.tla) + cell comparison"),
  "C19": ("model_checking",
          "TLC checks the transcribed kd-tree search against the minimum-distance definition for every point set, every arrangement the median split may leave and every query; the transcribed polygon code against the closed-polygon definition for every simple polygon; the great-circle mechanism (clamp included) against R*acos on the 26-direction configuration where dot products are integers. Every enumerated input is then passed to the real kernels. Bezier closest points and the coordinate round trip are compared numerically with brute force (exploration-strength for those two).",
          "4x4 lattices, <= 4/5 points, polygons <= 4/5 vertices, polylines <= 3/4 points with bends <= 60 degrees; " + NOTE,
